@@ -195,6 +195,7 @@ type c04Mode struct {
 	name      string
 	handler   int  // -1 never, 0 from the start, j>0: installed before the j-th symbol (1-based)
 	burst     bool // all packets injected at once
+	short     bool // the transport hands the client one byte per Read
 	replaceAt int
 }
 
@@ -207,8 +208,8 @@ func runC04(c *Ctx) {
 	}
 	c.Bound("alphabet", fmt.Sprint(alpha))
 	c.Bound("max_sequence_length", maxL)
-	c.Bound("modes", "handler from start | no handler | handler installed before symbol 2 | burst (all packets in one segment, handler from start); plus all sequences of length<=2 with preemption bound 1 and a handler that yields")
-	modes := []c04Mode{{name: "h", handler: 0}, {name: "noh", handler: -1}, {name: "mid", handler: 2}, {name: "burst", handler: 0, burst: true}}
+	c.Bound("modes", "handler from start | no handler | handler installed before symbol 2 | burst (all packets in one segment, handler from start) | the same with one byte per Read; plus all sequences of length<=2 with preemption bound 1 and a handler that yields")
+	modes := []c04Mode{{name: "h", handler: 0}, {name: "noh", handler: -1}, {name: "mid", handler: 2}, {name: "burst", handler: 0, burst: true}, {name: "burst-short-reads", handler: 0, burst: true, short: true}}
 	var lastTL []string
 	var lastSeq string
 	for _, m := range modes {
@@ -242,6 +243,9 @@ func runC04(c *Ctx) {
 						net = env.NewNet()
 						s := env.NewScript(net)
 						s.AutoConnAck = true
+						if m.short {
+							s.Conn.ReadMax = 1
+						}
 						s.OnPacket = func(_ *env.Script, p *env.Packet) {
 							if p.Type != env.CONNECT {
 								tl = append(tl, "W:"+p.String())
